@@ -201,6 +201,14 @@ def run_err_family(fam, st):
         for pos in range(1, len(frame)):
             for v in range(1, 256):
                 one(v << (8 * (len(frame) - 1 - pos)))
+    elif kind == "trailer":
+        # the trailer REPLACED by a fixed value (all zero = "not filled in", all ones, text-like):
+        # the error pattern is confined to the last 24 bits
+        crc = fi & 0xFFFFFF
+        for target in (0x000000, 0xFFFFFF, 0x0D0A0D, 0x00000A, 0x202020, 0x800000, 0x000001, 0x0A0A0A,
+                       0x00000D, 0xD30000):
+            if crc != target:
+                one(crc ^ target)
     elif kind in ("1bit", "nested"):
         for b in range(nbits):
             one(1 << b)
@@ -292,15 +300,24 @@ def run_v0(st, tier):
         if it["kind"] == "fail":
             continue
         frame = pinned.frame(it["payload"])
-        ref = R.public_attrs(RTCMReader.parse(frame, validate=0))
+
+        def result(buf):
+            """Everything a caller can see of the parse result."""
+            m = RTCMReader.parse(buf, validate=0)
+            return (R.public_attrs(m), str(m), m.serialize(), m.payload, m.identity)
+
+        ref = result(frame)
         for bit in range(24):
             d = bytearray(frame)
             d[len(d) - 3 + bit // 8] ^= 0x80 >> (bit % 8)
             out = core.Outcome()
             try:
-                got = R.public_attrs(RTCMReader.parse(bytes(d), validate=0))
+                got = result(bytes(d))
                 if got != ref:
-                    out.bad("validate0-crc-bytes-influence-result", f"{it['name']}: trailer bit {bit}")
+                    what = [n for n, a, b in zip(("attributes", "str()", "serialize()", "payload", "identity"),
+                                                 got, ref) if a != b]
+                    out.bad("validate0-crc-bytes-influence-result",
+                            f"{it['name']}: flipping trailer bit {bit} changes {what} of the validate=0 result")
             except Exception as err:  # pylint: disable=broad-except
                 out.bad("validate0-rejects", f"{it['name']}: trailer bit {bit}: {type(err).__name__}: {err}")
             out.obs = core.h64(bytes(d))
@@ -405,6 +422,8 @@ def plan(tier):
         fams.append({"kind": "1bit", "len": ln})
     for ln in ([6, 8, 16, 24, 64] if tier == "quick" else list(range(6, 65)) + [256]):
         fams.append({"kind": "2bit", "len": ln})
+    for ln in (list(range(6, 80)) + [255, 256, 257, 1028, 1029] if tier == "quick" else range(6, 1030)):
+        fams.append({"kind": "trailer", "len": ln})
     # every value of the validate flag that has the checksum bit set
     for v in (True, 3, 5, 0x81, 0xFF, 257, 0xFFFF):
         for ln in (6, 25, 64):
